@@ -17,6 +17,7 @@ func (w *World) Exec(idx int, op Op) {
 	w.Env.CurOp = idx
 	w.Env.CurSub = 0
 	w.Env.FiredInOp = 0
+	w.Env.FiredInEvict = 0
 	w.Env.BudgetUsed = 0
 	w.Env.BudgetHit = false
 	total := int64(0)
@@ -213,6 +214,14 @@ func (w *World) universe(h *StoreH, coll string, key []byte) {
 func (w *World) expectErr(kind string, err error, wantErr bool, what string) (failed bool) {
 	if w.faultFired() {
 		if err == nil {
+			if TolerateEvictAbsorb && w.Env.FiredInEvict == w.Env.FiredInOp {
+				// known finding (C07, evict-absorbs-fault): every fault of this
+				// call fired inside Collection.EvictSomeItems (called by CopyTo),
+				// which has no way to report it; the call's result is then
+				// checked exactly like that of an unfaulted call
+				w.probe("known-fault-absorbed-by-internal-eviction")
+				return wantErr
+			}
 			if w.judges(kind) {
 				w.fail("fault-swallowed", kind, "%s: a file fault fired inside the call but it returned no error", what)
 			}
@@ -536,12 +545,42 @@ func (w *World) opFlush(h *StoreH, op Op) {
 	h.SizeKnown = true
 	h.Size = end
 	w.durable[d] = end
+	if w.forgedRoot(d) {
+		return
+	}
 	if w.CheckDecode {
 		w.checkDecoded(h, kind, w.Disks[d].Image(), end)
 	}
 	if w.CheckReads {
 		w.indexValueRanges(d, end)
 	}
+}
+
+// forgedRoot: adversarial values may, by coincidence of offsets, land so
+// that an embedded copy of a real root record becomes a complete,
+// self-consistent root record.  The properties (and the README) exclude
+// exactly that case, so such a run ends without a verdict.
+func (w *World) forgedRoot(d int) bool {
+	if !w.AdvValues {
+		return false
+	}
+	known := map[int64]bool{}
+	for _, tl := range w.Files[d].Timeline {
+		for _, fl := range tl.Stack {
+			known[fl.End] = true
+		}
+	}
+	for _, fl := range w.Files[d].Flushes {
+		known[fl.End] = true
+	}
+	for _, r := range AllRoots(w.Disks[d].Image()) {
+		if !known[r.End] {
+			w.Aborted = true
+			w.probe("run-aborted-self-consistent-forged-root-by-coincidence")
+			return true
+		}
+	}
+	return false
 }
 
 func (w *World) opRevert(h *StoreH, op Op) {
